@@ -70,3 +70,19 @@ class RecEvent:
         from pyvc.api import ghost
 
         ghost("event").append("clear")
+
+
+class FakeTimeout:
+    """asyncio.timeout(delay) stand-in: an async context manager that records the delay; the awaits
+    inside decide themselves (nondeterministically) whether they time out."""
+
+    def __init__(self, delay):
+        from pyvc.api import ghost
+
+        ghost("timeouts").append(delay)
+
+    async def __aenter__(self):
+        return self
+
+    async def __aexit__(self, exc_type, exc, tb):
+        return False
